@@ -100,6 +100,16 @@ def api_corr(ctx, n):
             gotv = ac[i].values
             if tr[i] and not np.allclose(gotv, np.array(exp), rtol=1e-9, atol=1e-12):
                 ctx.fail("oracle", "autocorrelogram %d" % i, inp, impl=list(map(float, gotv)), expected=exp)
+        # lag 0 of an autocorrelogram is zero for EVERY bin size, also when the centre of the middle bin is not the float 0.0
+        if k % 5 == 0:
+            for bsz, wsz, un in ((0.005, 0.05, "s"), (0.005, 1.0, "s"), (5.0, 50.0, "ms"), (7000.0, 70000.0, "us"), (0.003, 0.03, "s")):
+                g0 = nap.TsGroup({1: nap.Ts(np.arange(1.0, 40.0, 3.0)), 4: nap.Ts(np.arange(2.0, 30.0, 2.0))})
+                a0 = nap.compute_autocorrelogram(g0, bsz, wsz, time_units=un)
+                mid = len(a0) // 2
+                ctx.case(("ac0", bsz, wsz, un))
+                if len(a0) % 2 != 1 or abs(float(a0.index.values[mid])) > 1e-12 or any(float(a0[c].values[mid]) != 0.0 for c in a0.columns):
+                    ctx.fail("oracle", "autocorrelogram is not zero at lag 0", dict(level="api-ac0", binsize=bsz, windowsize=wsz, unit=un),
+                             impl=[float(a0.index.values[mid])] + [float(a0[c].values[mid]) for c in a0.columns])
         ev = nap.Ts(farr(trains[2], U), time_support=full)
         ec = nap.compute_eventcorrelogram(g, ev, b * U / f, w * U / f, norm=norm, time_units=unit, **kw)
         evr = tr[2] if ep is not None else trains[2]
